@@ -621,3 +621,157 @@ func sameFieldReload(a, b ssa.Value, l *loopInfo) bool {
 	}
 	return true
 }
+
+// ---------- TIGHT-1 ----------
+
+func init() {
+	register(&Rule{
+		ID: "TIGHT-1",
+		Doc: "only tight edges enter the spanning tree: every store `Edge.IsInSpanningTree := true` of the layering phase is control-dependent on `slack(e) == 0` for the same edge (tree construction), " +
+			"or sits in a function that first computes d := slack(f) of that same edge and shifts Node.Layer by d (the pivot makes the entering edge tight); slack is recognised by shape (To.Layer - From.Layer - Delta, inline or through a one-line helper). " +
+			"A tree with slack edges is not a feasible basis: all cut values can be non-negative while edges are longer than necessary",
+		Floor: 2,
+		Ctl:   []string{"internal__phase2__tight1.go.txt"},
+		Run:   runTight1,
+	})
+}
+
+// slackOf: v is the slack of edge value e (inline To.Layer - From.Layer - Delta, or a call of a helper that returns it).
+func slackOf(v ssa.Value, depth int) (e ssa.Value, ok bool) {
+	if depth > 2 {
+		return nil, false
+	}
+	loadPath := func(x ssa.Value, want string) (ssa.Value, bool) {
+		u, isU := x.(*ssa.UnOp)
+		if !isU || u.Op != token.MUL {
+			return nil, false
+		}
+		fa, isFA := u.X.(*ssa.FieldAddr)
+		if !isFA {
+			return nil, false
+		}
+		base, steps := fieldChain(fa)
+		if locOfSteps(steps) != want {
+			return nil, false
+		}
+		return base, true
+	}
+	endLayer := func(x ssa.Value, end string) (ssa.Value, bool) {
+		nb, ok := loadPath(x, igNode+".Layer")
+		if !ok {
+			return nil, false
+		}
+		return loadPath(nb, igEdge+"."+end)
+	}
+	switch x := v.(type) {
+	case *ssa.BinOp:
+		if x.Op != token.SUB {
+			return nil, false
+		}
+		inner, isB := x.X.(*ssa.BinOp)
+		if !isB || inner.Op != token.SUB {
+			return nil, false
+		}
+		e1, ok1 := endLayer(inner.X, "To")
+		e2, ok2 := endLayer(inner.Y, "From")
+		e3, ok3 := loadPath(x.Y, igEdge+".Delta")
+		if ok1 && ok2 && ok3 && e1 == e2 && e2 == e3 {
+			return e1, true
+		}
+	case *ssa.Call:
+		c := x.Call.StaticCallee()
+		if c == nil || len(c.Blocks) != 1 || len(c.Params) != 1 || len(x.Call.Args) != 1 {
+			return nil, false
+		}
+		if ret, isRet := c.Blocks[0].Instrs[len(c.Blocks[0].Instrs)-1].(*ssa.Return); isRet && len(ret.Results) == 1 {
+			if pe, ok := slackOf(ret.Results[0], depth+1); ok && pe == ssa.Value(c.Params[0]) {
+				return x.Call.Args[0], true
+			}
+		}
+	}
+	return nil, false
+}
+
+func runTight1(m *Model, r *RuleResult) {
+	for _, f := range m.Src {
+		if shortPkg(pkgPathOf(f)) != "internal/phase2" {
+			continue
+		}
+		loops := naturalLoops(f)
+		n := 0
+		eachInstr(f, func(in ssa.Instruction) {
+			st, ok := in.(*ssa.Store)
+			if !ok {
+				return
+			}
+			c, isC := st.Val.(*ssa.Const)
+			if !isC || !isConstBool(c, true) {
+				return
+			}
+			fa, ok := st.Addr.(*ssa.FieldAddr)
+			if !ok {
+				return
+			}
+			eb, steps := fieldChain(fa)
+			if locOfSteps(steps) != igEdge+".IsInSpanningTree" || isFreshObject(eb, 0) {
+				return
+			}
+			n++
+			key := fmt.Sprintf("tree-entry:%s#%d", funcKey(f), n)
+			ctl := m.FuncIsPosctl(f)
+			// (a) guarded by slack(e) == 0
+			guarded := false
+			for _, d := range iterationControlDeps(st.Block(), loops) {
+				bo, ok := d.If.Cond.(*ssa.BinOp)
+				if !ok {
+					continue
+				}
+				if k, isK := constInt(bo.Y); isK && k == 0 {
+					if se, ok := slackOf(bo.X, 0); ok && (se == eb || sameSSAExpr(se, eb, 0)) {
+						if (bo.Op == token.EQL && d.Branch == 0) || (bo.Op == token.NEQ && d.Branch == 1) || (bo.Op == token.LEQ && d.Branch == 0) {
+							guarded = true
+						}
+					}
+				}
+			}
+			// (b) made tight: d := slack(e) computed before, and Node.Layer shifted by d in this function
+			madeTight := false
+			eachInstr(f, func(in2 ssa.Instruction) {
+				v, isV := in2.(ssa.Value)
+				if !isV {
+					return
+				}
+				se, ok := slackOf(v, 0)
+				if !ok || !(se == eb || sameSSAExpr(se, eb, 0)) || !instrDominates(in2, st) {
+					return
+				}
+				eachInstr(f, func(in3 ssa.Instruction) {
+					ls, ok := in3.(*ssa.Store)
+					if !ok {
+						return
+					}
+					fa3, ok := ls.Addr.(*ssa.FieldAddr)
+					if !ok {
+						return
+					}
+					_, st3 := fieldChain(fa3)
+					if locOfSteps(st3) != igNode+".Layer" {
+						return
+					}
+					if bo, ok := ls.Val.(*ssa.BinOp); ok && (bo.Op == token.SUB || bo.Op == token.ADD) && (bo.Y == v || bo.X == v) {
+						madeTight = true
+					}
+				})
+			})
+			switch {
+			case guarded:
+				r.add(Obligation{Key: key, Pos: m.Pos(st.Pos()), Desc: "the edge enters the tree only under slack(e) == 0", Verdict: "holds", Control: ctl})
+			case madeTight:
+				r.add(Obligation{Key: key, Pos: m.Pos(st.Pos()), Desc: "the edge enters the tree after the layers were shifted by its slack (it is tight then)", Verdict: "holds", Control: ctl})
+			default:
+				r.add(Obligation{Key: key, Pos: m.Pos(st.Pos()), Desc: "an edge may enter the spanning tree only when it is tight", Verdict: "violation",
+					Detail: "IsInSpanningTree := true is neither guarded by slack(e) == 0 nor preceded by a shift of the layers by slack(e): the tree is not a feasible basis, all cut values can be non-negative while the layering is longer than necessary", Control: ctl})
+			}
+		})
+	}
+}
